@@ -19,8 +19,10 @@ class -> alias paths, `_body_of`) or, for the two parts of a data transform, thr
 `termination` / `data_transform`, whose names are the tree names DataTransformBlock.tree builds (section "grammar
 lookups").  The alternatives of a rule are read the way they show up in a tree (`_alts`): an un-aliased unit production of a
 rule lark inlines (`?x: y`, `_x: y`) stands for the alternatives of `y`, so a rule that refers to another one instead of
-repeating it, or that is split into named groups, reads the same.  A rule that cannot be reached that way makes the
-obligation undecided.
+repeating it, or that is split into named groups, reads the same; and a symbol lark splices into its parent (a `_x` rule, an
+instance `_t{..}` of a rule template) is written out in place (`_spliced`), so the keywords, `string` children and braces of
+an alternative are the same whether they stand in the alternative or in such a rule.  A rule that cannot be reached that
+way makes the obligation undecided.
 
 Class attributes of the builder classes (the statement names bound to a primitive: `createthread = ConfigBlock._enable`) are
 looked up in the class body, its base classes and among the attributes installed after the body ran - by a class decorator
@@ -44,8 +46,13 @@ Technique (numbers: ALLOWED devices of RULES_GUIDE.md, "What counts as static he
        setattr installs, constant names folded - 6), 5 (consumer loop per label / field name), 3 (the emitted builder call
        as a term), 6 (grammar alias and keyword).
   R3   5 (producer per InjectExecutor member, input symbolic; consumer per produced entry), 3 (the entry of an executor
-       with an argument is a text term, lemmas S1-S4 and S6 decide `" " in`, partition, slicing, membership), 6 (grammar
-       alias / keyword / arity; reference spelling table), sibling agreement as equality of the builder-call terms.
+       with an argument is a text term, lemmas S1-S4 and S6 decide `" " in`, partition, slicing, membership; the value
+       handed to the statement of such an executor must be the term between the quotes of the entry - the same constant
+       segments and the very same holes: violated when a hole arrives under a character rewriter the walker distributes
+       over the term (single-character replace with different operands, case mapping - the argument is arbitrary
+       printable text) or with other constant segments around the same holes; any other value: undecided), 6 (grammar
+       alias / keyword / arity; reference spelling table), sibling agreement as equality of the builder-call terms (and
+       the argument of the pair handed over unchanged).
   R4   5 (per valued opcode / transform key / pivot frame-header setting, byte argument symbolic), 3 (the term that reaches
        the step / set_option is classified structurally, `_conversion`), 6 (E3 reads one entry of a constant table of the
        code; slice bounds, the constant that pins repr() and its escaped length, codec names).  Lemmas:
@@ -80,7 +87,11 @@ Technique (numbers: ALLOWED devices of RULES_GUIDE.md, "What counts as static he
        of the opcode tables; sibling settings compared by structural equality of the terms - when they differ only in the
        function that encodes the argument - handing the bytes over unchanged is one of them - the comparison is undecided, each
        encoding being R4's / R11's), 4 (container kind: lemma
-       K, a dict / set keeps one line per name).
+       K, a dict / set keeps one line per name).  Recover program (SETTING_C2_RECOVER): 5 (per opcode of the recover table,
+       a flag carries True, a valued one a symbolic int), 2 + 3 (every path - a test the type-tag / nullness facts of the
+       argument do not decide is followed both ways - must hand exactly that one step, bare name or (name, text made from
+       the length), to the one data-transform block attached as output of the http-get server block), lemma R (`c * n`
+       with a one-character constant c has length n; other functions of the length: undecided).
   R6   1, 2 (CFG dominance of the attachment by a non-emptiness condition: truthiness or a spelled-out `len(x) > 0` /
        `x != []` / `bool(x)` form), 3 (values the child is fed from; a test held in a single-definition temporary is read
        as the expression it was computed from).  That an attached data transform has statements is R10's.
@@ -94,7 +105,14 @@ Technique (numbers: ALLOWED devices of RULES_GUIDE.md, "What counts as static he
        profile is read off the attach calls and block-valued constructor keywords as terms, `set_non_empty_config_block`
        by the summary of the primitives), 6 (grammar fact: `data_transform` is not nullable - least fixpoint over the
        compiled rules - so a data-transform block without statements has no text).  Obligations: generation does not
-       raise; no child-less block and no statement-less data transform is emitted.
+       raise; no child-less block and no statement-less data transform is emitted.  c / d (an option whose value is
+       `<constant>.join(<sequence>)`, located by that shape of the inlined value): c. 4 (element nullness of the sequence:
+       abstract values "scalars / tuples whose components are non-null / may be None", followed by transfer rules through
+       list / dict.fromkeys / split / comprehensions with `is not None` / truthiness filters / zip_longest (pad value) /
+       properties of the configuration class / package helpers with their parameters bound / locals filled in a loop; "may
+       be None" only with a witness - the literal None or the default pad value - unknown otherwise: undecided), 1
+       (resolved callees and properties); d. 2 (CFG dominance of the set_option call by a non-emptiness condition on the
+       sequence or on the joined text).
   R13  5 (one case per BeaconSetting member - the setting alone, its value a free symbol - and, for the sequence-valued settings,
        one per kind of entry of the vocabularies of R3 - R5 / R10, arguments symbolic; two settings together, in both orders,
        when their own branches attach / fill a builder object made at the same construction site of the code - the sites are
@@ -141,7 +159,7 @@ import operator
 from typing import Dict, List, Optional, Set, Tuple
 
 from csverif import tables
-from csverif.astutil import body_walk, const_eval, dotted, fn_calls, kwarg, NotConst, param_defaults, params, src, statements
+from csverif.astutil import assignments_to, bind_args, body_walk, conjuncts, const_eval, dotted, fn_calls, kwarg, NotConst, param_defaults, params, src, statements
 from csverif.grammar import Grammar
 from csverif.q import FuncView, dominating_conditions, inline
 
@@ -1918,8 +1936,41 @@ def _alts(g: Grammar, origin: str, _seen=None) -> list:
             for o in sorted(g.expand_star(r.expansion[0].name)):
                 out += _alts(g, o, seen)
         else:
-            out.append(r)
+            out += _spliced(g, r)
     return out
+
+
+_SPLICE_LIMIT = 32
+
+
+def _spliced(g: Grammar, r, _seen=frozenset()) -> list:
+    """Alternative `r` with the symbols of the rules lark splices into their parent written out in place: a non-terminal
+    whose name starts with one underscore (`_x`, an instance `_t{..}` of a rule template) leaves no node of its own -
+    lark's child filter puts its children where the symbol stands - so what the node of `r` is made of (its keywords, its
+    `string` children, its braces) is the expansion with every such symbol replaced by the expansion of its rule (one copy
+    of `r` per combination of alternatives of the spliced rules; origin, alias and position stay those of `r`).  The
+    repetition helpers (`__x_star_n`: recursive) and recursive rules are left as they are, and so is `r` when there would
+    be more than _SPLICE_LIMIT copies."""
+    from csverif.grammar import GRule
+
+    def splice(sym):
+        return (not sym.is_term) and sym.name.startswith("_") and not sym.name.startswith("__") and sym.name not in _seen
+
+    if not any(splice(s) for s in r.expansion):
+        return [r]
+    variants = [[]]
+    for s in r.expansion:
+        if not splice(s):
+            for v in variants:
+                v.append(s)
+            continue
+        subs = []
+        for a in g.alternatives(s.name):
+            subs += _spliced(g, a, _seen | {s.name})
+        if not subs or len(subs) * len(variants) > _SPLICE_LIMIT:
+            return [r]
+        variants = [v + list(a.expansion) for v in variants for a in subs]
+    return [GRule(r.origin, r.alias, v, r.expand1, r.order) for v in variants]
 
 
 def _top_origins(g: Grammar) -> Set[str]:
@@ -2036,7 +2087,10 @@ def run(ctx):
         "add_termination attach the argument in both nullness cases as required; blocks are attached only when non-empty "
         "(CFG dominance); for every sequence-valued setting the case of a value without entries is followed: generation must "
         "not raise and neither a child-less block nor a data-transform block without statements (not derivable from the "
-        "grammar) may reach the returned profile; for every setting taken alone with content (and for two settings together when "
+        "grammar) may reach the returned profile; an option whose value is joined from a sequence (the URI list) has only text elements - element nullness is "
+        "followed into beacon.py, where the pairing helper pads with None - and is only stated under a non-emptiness test of that sequence; the statement of an "
+        "executor with an argument states the text between the quotes of the entry unchanged; every opcode of the recover table is rendered, on every path, into "
+        "the one step of the http-get server output block; for every setting taken alone with content (and for two settings together when "
         "their branches attach or fill a builder object made at the same place of the code) whatever is put into a builder object must be "
         "linked to the returned profile by attachments that are made - the emptiness test of set_non_empty_config_block is evaluated "
         "where it is called, so a block must be complete before it is tested - and no builder object may be attached twice (R13); "
@@ -2059,6 +2113,10 @@ def run(ctx):
                        "tokens of a builder (C11.R6: a builder that does not hand the value itself to value_to_string is undecided), rewrites of the str path other than "
                        "backslash + X / the backslash alone / the quote escape (undecided); str-valued settings and the decoded static header / parameter lines (raw text)",
                        "that a data-transform block has exactly one termination statement (only the block without any statement is judged, R10)",
+                       "R10 c / d: options built from a sequence by other means than `<constant>.join(..)` handed to set_option (undecided when none is located); element nullness that cannot be followed "
+                       "to a source by the transfer rules (undecided); elements that are not None but not text either",
+                       "R3 argument: values that reach the statement through functions other than slicing / partition of the entry and the character rewriters the walker distributes (undecided)",
+                       "R5 recover: the text of the placeholder beyond its length; functions of the length other than <one character> * length (undecided)",
                        "equality of two different encodings of the same argument in sibling settings (undecided; each is judged by R4)",
                        "interaction of several entries of one program beyond a BUILD entry followed by a step (order, repetition): "
                        "only the per-entry effect and the kind of container the lines are collected in are judged",
@@ -2102,7 +2160,16 @@ def run(ctx):
                         "`data_transform` of a data transform; _SEQUENCE_SETTINGS (settings whose value is a list of entries; reference: the list-returning producers of beacon.SETTING_TO_PRETTYFUNC); "
                         "the value of such a setting is a Python list (so the empty one equals [])",
                         "length facts: a sequence that holds the entries of a case has length >= their number; the empty sequence has length 0",
-                        "lark tree shaping: an un-aliased unit production of a `?rule` (single child) or `_rule` leaves no node of its own, the node is the one its child makes (`_alts`)",
+                        "lark tree shaping: an un-aliased unit production of a `?rule` (single child) or `_rule` leaves no node of its own, the node is the one its child makes (`_alts`); "
+                        "the children of a `_rule` / a template instance `_t{..}` are spliced into the parent's node (ChildFilter expands non-terminals whose name starts with an underscore), "
+                        "so an alternative is read with such symbols replaced by their expansions (`_spliced`)",
+                        "R3 argument: the execute-list entry of an executor with an argument has the form <keyword> \"<argument>\" (reference: the `CreateThread \"module!function+0x10\"` statement); "
+                        "the argument is arbitrary printable text, so a single-character replace with different operands / a case mapping changes some argument",
+                        "R5 recover: argument kinds of recover entries - flag opcodes carry the object True, prepend / append an int length that is not a bool; every outcome of a test that these facts "
+                        "do not decide is a possible configuration (e.g. length 1 == True, length 0 is falsy); lemma R: <one character> * n is a text of length n",
+                        "R10 c: transfer rules of the element-nullness analysis (list / tuple / sorted / set / dict.fromkeys keep the elements; split / rsplit / splitlines give text pieces; "
+                        "itertools.zip_longest pads shorter inputs with its fill value, None by default; text operations return text; `x is not None` / truthiness filters); str.join raises "
+                        "TypeError for a None element; R10 d: a non-empty joined text has at least one element",
                         "python class construction: class decorators are applied bottom-up to the finished class; setattr(C, name, v) / C.name = v bind the attribute after the body",
                         "R12 re-emits the obligations of rules/c10.py `r3` (C10.R3); its trusted base (lark Reconstructor.reconstruct / postproc contract, lemmas L1-L4, LT, LX, assumptions A1, A2) applies",
                         "R14 lemma P: CPython's re returns the leftmost-first match - equivalently, threads kept in priority order (left alternative first, a greedy repeat prefers "
@@ -2478,8 +2545,82 @@ def _consumer_emission(ctx, s):
             raise Unknown("the settings loop of from_beacon_config was not found")
         evs = _prim_events(res, cls="ExecuteOptionsBlock", prims=PRIM_ARITY)
         attached = all(any(p.cls == "ProcessInjectBlock" for p, _pr, _n in _attachments(res, ev.recv)) for ev in evs)
-        out.append((res.raised, [(ev.prim, _ev_name(ev)) for ev in evs], attached))
+        out.append((res.raised, [(ev.prim, _ev_name(ev)) for ev in evs], attached, [_ev_value(ev) for ev in evs]))
     return out
+
+
+_CHAR_REWRITERS = {"replace", "lower", "upper", "casefold"}  # text methods the walker distributes over a text term (S5 and the single-character replace)
+
+
+def _entry_argument(s):
+    """The argument text of an execute-list entry `<keyword> "<argument>"` the producer renders as the text term `s`: what
+    stands between the first double quote of the leading constant segment and the double quote that ends the trailing one
+    (S2 / S4: both quotes lie in constant segments, so the holes - module, function, offset - are untouched).  None when
+    the term does not have that form."""
+    if not isinstance(s, _Str):
+        return None
+    lead, trail = _str_lead(s), _str_trail(s)
+    if '"' not in lead or not trail.endswith('"') or len(s.parts) < 2:
+        return None
+    return _mk_str([lead[lead.index('"') + 1:]] + list(s.parts[1:-1]) + [trail[:-1]])
+
+
+def _text_parts(t):
+    return list(t.parts) if isinstance(t, _Str) else [t] if isinstance(t, str) else None
+
+
+def _same_text(a, b) -> bool:
+    """Two text terms are the same text: equal constant segments and the very same holes, in order."""
+    pa, pb = _text_parts(a), _text_parts(b)
+    if pa is None or pb is None or len(pa) != len(pb):
+        return a is b
+    return all((x == y) if isinstance(x, str) and isinstance(y, str) else x is y for x, y in zip(pa, pb))
+
+
+def _rewritten_hole(q, holes):
+    """`q` is one of `holes` under a chain of character rewriters (replace with different operands, case mapping): the name
+    of the outermost rewriter; None otherwise."""
+    name = None
+    cur, depth = q, 0
+    while isinstance(cur, _Obj) and not isinstance(cur, _Sym) and depth < 8:
+        # (a rewriter distributed over a text term: `_Obj(<method>, [piece, operands..])`; a method call on a symbol:
+        # `_Obj(<path>.<method>, operands, recv=symbol)`)
+        meth = cur.callee.split(".")[-1]
+        if meth not in _CHAR_REWRITERS:
+            break
+        if cur.recv is not None:
+            inner, ops = cur.recv, list(cur.args)
+        elif cur.args:
+            inner, ops = cur.args[0], list(cur.args[1:])
+        else:
+            break
+        if meth == "replace" and (len(ops) != 2 or _has_opaque(ops[0]) or _has_opaque(ops[1])):
+            break
+        if not (meth == "replace" and ops[0] == ops[1]):
+            name = name or (f"replace({ops[0]!r}, {ops[1]!r})" if meth == "replace" else meth + "()")
+        cur, depth = inner, depth + 1
+    return name if name is not None and any(cur is h for h in holes) else None
+
+
+def _argument_verdict(value, want):
+    """How the value handed to the statement of an executor with an argument relates to the argument text `want` of the
+    entry: (True, ..) the same text; (False, why) a text made of the entry's own pieces that is a different text - a hole
+    under a character rewriter (the argument is an arbitrary printable text: a rewriter with different operands changes
+    some argument), or other constant segments around the same holes (quotes kept, separator changed, a piece cut off);
+    (None, why) anything else."""
+    if _same_text(value, want):
+        return True, "the argument text of the entry, unchanged"
+    holes = [q for q in (_text_parts(want) or []) if not isinstance(q, str)]
+    parts = _text_parts(value)
+    if parts is None or not holes:
+        return None, "the value handed over is not a text term over the pieces of the entry: " + _show(value)[:120]
+    rewritten = [_rewritten_hole(q, holes) for q in parts if not isinstance(q, str)]
+    own = [q for q in parts if not isinstance(q, str) and any(q is h for h in holes)]
+    if any(rewritten):
+        return False, f"the argument text passes through {[r for r in rewritten if r][0]} before it is stated: an argument that contains such a character is stated as a different text"
+    if len(own) == len([q for q in parts if not isinstance(q, str)]):
+        return False, f"the text stated is {_template_text(value)!r}, the argument of the entry is {_template_text(want)!r}"
+    return None, "the value handed over contains pieces the rule does not understand: " + _show(value)[:120]
 
 
 def r3(ctx, g: Grammar):
@@ -2529,7 +2670,7 @@ def r3(ctx, g: Grammar):
         ok = True
         details = []
         emitted_here = None
-        for raised, emitted, attached in ems:
+        for raised, emitted, attached, _values in ems:
             if raised:
                 ok = False
                 details.append(f"producer emits {shown!r}; from_beacon_config raises {raised}")
@@ -2552,6 +2693,23 @@ def r3(ctx, g: Grammar):
         key = f"executor {m}" if f"executor {m}" not in done else f"executor {m} as {shown}"
         done.add(f"executor {m}")
         ctx.ob("R3", "VOCAB", f, key, ok, "; ".join(sorted(set(details)))[:600])
+        # an executor with an argument: the statement states the argument text of the entry (module!function+offset),
+        # unchanged - what the producer put between the quotes, as a term
+        if m in _ARG_EXECUTORS and ok:
+            akey = key + " argument"
+            want = _entry_argument(s)
+            if want is None:
+                ctx.undecided("R3", "TAINT", f, akey, f"the producer's entry {shown!r} is not of the form <keyword> \"<argument>\" with both quotes in constant segments: its argument cannot be located")
+            else:
+                verdicts = [_argument_verdict(vals[0], want) for _r, emitted, _a, vals in ems if len(emitted) == 1 and len(vals) == 1]
+                bad = [why for v, why in verdicts if v is False]
+                unk = [why for v, why in verdicts if v is None]
+                if bad:
+                    ctx.ob("R3", "TAINT", f, akey, False, f"producer emits {shown!r}; " + "; ".join(sorted(set(bad)))[:500])
+                elif unk or not verdicts:
+                    ctx.undecided("R3", "TAINT", f, akey, f"producer emits {shown!r}; " + ("; ".join(sorted(set(unk)))[:400] if unk else "no statement to look at"))
+                else:
+                    ctx.ob("R3", "TAINT", f, akey, True, f"producer emits {shown!r}; the statement is handed {_template_text(want)!r}: the text between the quotes of the entry, with the very pieces the producer put there")
         # the sibling consumer ExecuteOptionsBlock.from_execute_list renders the same entry the same way; an executor with an
         # argument is handed to it as the pair (keyword, argument) - the argument symbolic
         if emitted_here is None:
@@ -2568,6 +2726,15 @@ def r3(ctx, g: Grammar):
                 got = [(ev.prim, _ev_name(ev)) for ev in _prim_events(res, cls="ExecuteOptionsBlock", prims=PRIM_ARITY)]
                 if res.raised or got != [emitted_here]:
                     agree.append(f"{_show(entry)}: from_beacon_config emits {emitted_here}, from_execute_list " + (f"raises {res.raised}" if res.raised else f"emits {got}"))
+                elif isinstance(entry, tuple):
+                    # ... and states the argument of the pair unchanged
+                    vals = [_ev_value(ev) for ev in _prim_events(res, cls="ExecuteOptionsBlock", prims=PRIM_ARITY)]
+                    if vals[0] is not entry[1]:
+                        rw = _rewritten_hole(vals[0], [entry[1]])
+                        if rw:
+                            agree.append(f"{_show(entry)}: from_execute_list passes the argument through {rw} before it is stated")
+                        else:
+                            agree_unknown.append(f"{_show(entry)}: the value from_execute_list states is {_show(vals[0])[:80]}")
         except Unknown as e:
             agree_unknown.append(f"{_show(entry)}: {e}")
     ctx.rep.count("executors", max(examined, len(produced)), floor=8)
@@ -3084,6 +3251,92 @@ def _procinj_analysis(ctx, setting: str) -> dict:
     return out
 
 
+def _step_list(steps):
+    """The entries of a steps term the code built: a list / tuple, or the sequence a comprehension over the program made
+    (`_Seq`: its entries are the ones of the case); None when it is something else."""
+    if isinstance(steps, (list, tuple)):
+        return list(steps)
+    if isinstance(steps, _Seq):
+        return list(steps.items)
+    return None
+
+
+def _recover_rendering(ctx, f):
+    """R5 for the recover program (SETTING_C2_RECOVER, the http-get server output): per opcode of the recover table - a flag
+    opcode carries True, a valued one (prepend / append) an int, the number of bytes to strip, symbolic - the generator is
+    followed with a one-entry program.  On EVERY path (a test the facts about the symbolic argument do not decide is
+    followed both ways: an int argument is not the object True, but nothing says it is unequal to True or falsy) exactly
+    one data-transform block reaches the profile, as `output` of the `server` block of the http-get block, and its steps
+    are that one entry: the bare lower-cased name for a flag, the pair (name, text made from the length) for a valued
+    opcode.  Lemma R: `c * n` / `n * c` with a one-character constant c is a text of length n (the placeholder the
+    configuration determines); another function of the length is undecided."""
+    if "SETTING_C2_RECOVER" not in _settings_enum(ctx):
+        return
+    diffs, unknown = [], []
+    n = 0
+    for opcode, has_arg in sorted(tables.RECOVER_STEPS.items()):
+        want = opcode.lower()
+        arg = _Val(f"length argument of {want}", "int") if has_arg else None
+        label = opcode
+        n += 1
+        try:
+            paths = _generate(ctx, [("SETTING_C2_RECOVER", _Seq([(want, arg if has_arg else True)], "recover program"))])
+            if any("settings-loop" not in r.flags for r in paths):
+                raise Unknown("the settings loop of from_beacon_config was not found")
+            for res in paths:
+                if res.raised:
+                    diffs.append(f"{label}: generation raises {res.raised}")
+                    continue
+                emitted, unk = _emitted_blocks(res)
+                if unk:
+                    unknown += [f"{label}: {u}" for u in unk if f"{label}: {u}" not in unknown]
+                    continue
+                dts = [(p, name, child) for p, _prim, name, child, _ne in emitted if child.cls == "DataTransformBlock"]
+                if len(dts) != 1:
+                    diffs.append(f"{label}: {len(dts)} data-transform blocks reach the profile (exactly one expected: the step is dropped or duplicated)")
+                    continue
+                p, name, child = dts[0]
+                up = [(q.cls, nm) for q, _prim, nm, c2, _ne in emitted if c2 is p]
+                if name != "output" or p.cls != "HttpOptionsBlock" or up != [("HttpGetBlock", "server")]:
+                    diffs.append(f"{label}: the block is attached as {_show(name)} of a {p.cls} that is attached as {up} (required: output of the server block of the http-get block)")
+                    continue
+                if any(_root(ev.recv) is child for ev in res.events):
+                    unknown.append(f"{label}: the data-transform block is also filled by method calls: its statements are not read off the constructor")
+                    continue
+                steps = _step_list(_dt_steps(child))
+                if steps is None:
+                    unknown.append(f"{label}: the steps of the data-transform block are not a list the code built ({_show(_dt_steps(child))[:60]})")
+                    continue
+                if not has_arg:
+                    if steps != [want]:
+                        diffs.append(f"{label}: steps {_show(steps)[:80]} (the configuration states the flag step {want!r})")
+                    continue
+                st = steps[0] if len(steps) == 1 else None
+                if not isinstance(st, (list, tuple)) or len(st) != 2 or st[0] != want:
+                    diffs.append(f"{label}: on a path the entry ({want!r}, <length>) is rendered as steps {_show(steps)[:80]} (the configuration states the step {want!r} with one argument of that length; "
+                                 "a bare name is not a statement DataTransformBlock knows: the step is lost)")
+                elif not _depends_on(st[1], arg):
+                    diffs.append(f"{label}: the argument of step {want!r} is {_show(st[1])[:60]}: not made from the entry's length")
+                else:
+                    t = st[1]
+                    mult = isinstance(t, _Obj) and t.callee == "binop Mult" and len(t.args) == 2 and any(x is arg for x in t.args) and \
+                        any(isinstance(x, (str, bytes)) and len(x) == 1 for x in t.args)
+                    if not mult:
+                        unknown.append(f"{label}: the argument of step {want!r} is {_show(t)[:60]}: a function of the length the rule has no lemma for (lemma R knows <one character> * length)")
+        except Unknown as e:
+            unknown.append(f"{label}: {e}")
+    diffs = [x for i, x in enumerate(diffs) if x not in diffs[:i]]
+    text = "SETTING_C2_RECOVER rendering"
+    if diffs:
+        ctx.ob("R5", "AGREE", f, text, False, "recover-program entries rendered unfaithfully: " + "; ".join(diffs)[:600])
+    elif unknown:
+        ctx.undecided("R5", "AGREE", f, text, "cannot read what from_beacon_config does with a recover-program entry: " + "; ".join(unknown)[:400])
+    else:
+        ctx.ob("R5", "AGREE", f, text, True,
+               f"each of the {n} opcodes of the recover table (flags carry True, prepend / append a symbolic int length) is rendered, on every path, into the one step the table prescribes - "
+               "the bare name, or (name, <one character> * length) - of the one data-transform block attached as output of the http-get server block")
+
+
 def r4_r5(ctx):
     f = ctx.repo.func("c2profile.C2Profile.from_beacon_config")
     client = {}
@@ -3192,6 +3445,7 @@ def r4_r5(ctx):
             ctx.ob("R5", "AGREE", f, f"{label} rendering", True,
                    f"each of the {len(client[label])} kinds of program entry (static header/parameter lines, flag steps, valued steps, BUILD selectors; arguments symbolic) "
                    f"is rendered into the one statement the opcode tables prescribe, in the client block of the {parent}")
+    _recover_rendering(ctx, f)
     a, b = client["SETTING_C2_REQUEST"], client["SETTING_C2_POSTREQ"]
     if any("unknown" in c for c in list(a.values()) + list(b.values())):
         ctx.undecided("R5", "AGREE", f, "SETTING_C2_REQUEST ~ SETTING_C2_POSTREQ", "one of the client branches could not be followed for every program entry")
@@ -3691,6 +3945,295 @@ def _emitted_blocks(res: _Res) -> Tuple[list, list]:
     return out, unknown
 
 
+# ---- R10 c / d: options built by joining a sequence-valued source (element nullness, device 4; guard dominance, device 2)
+# Abstract value of "the elements of a sequence": ("e",) no elements known (an empty literal - neutral for the join),
+# ("s", st) scalars, ("t", st) tuples whose components are st, with st "nonnull" (no element / component is None) or
+# "maynull" (a None WITNESS flows into them: the literal None, or the pad value None of zip_longest); None = not known.
+# Transfer rules (each a fact about a builtin, stated where it is applied); everything else is unknown -> undecided.
+_SAME_ELEMENTS = {"list", "tuple", "sorted", "set", "frozenset", "iter", "reversed", "dict.fromkeys", "collections.OrderedDict.fromkeys", "OrderedDict.fromkeys"}
+_STR_LISTS = {"split", "rsplit", "splitlines"}  # str / bytes methods that return a list of str / bytes objects
+
+
+def _en_join(a, b):
+    if a is None or b is None:
+        return None
+    if a == ("e",):
+        return b
+    if b == ("e",):
+        return a
+    if a[0] != b[0]:
+        return None
+    return (a[0], "maynull" if "maynull" in (a[1], b[1]) else "nonnull")
+
+
+class _ElemNull:
+    """Element nullness of sequence-valued expressions of the package, followed through properties of the same class,
+    package functions (parameters bound to the call's arguments / defaults), comprehensions, and locals that are filled
+    in a loop.  Nothing is executed: the value of an expression is one of the abstract values above."""
+
+    def __init__(self, ctx):
+        self.ctx = ctx
+        self.depth = 0
+
+    # -- nullness of one scalar expression under a binding env (name -> "nonnull" | "maynull" | ("tuple", st)) and the
+    #    texts of expressions known to be not None
+    def scalar(self, e, env, known):
+        if src(e) in known:
+            return "nonnull"
+        if isinstance(e, ast.Constant):
+            return "maynull" if e.value is None else "nonnull"
+        if isinstance(e, ast.Name):
+            v = env.get(e.id)
+            return v if isinstance(v, str) else None
+        if isinstance(e, ast.Subscript) and isinstance(e.value, ast.Name) and isinstance(env.get(e.value.id), tuple):
+            return env[e.value.id][1]  # a component of a tuple element
+        if isinstance(e, (ast.JoinedStr, ast.BinOp)) or (isinstance(e, ast.Call) and isinstance(e.func, ast.Attribute) and not isinstance(e.func.value, ast.Constant)
+                                                          and e.func.attr in ("strip", "lstrip", "rstrip", "lower", "upper", "decode", "encode", "replace", "format")):
+            return "nonnull"  # the result of a text operation is a text (the operation raises on None, it does not return it)
+        return None
+
+    def _filters(self, tests, pol=True):
+        """Texts of the expressions the tests establish to be not None: `x is not None`, `x` (truthy), `x != None`."""
+        known = set()
+        for t in tests:
+            for c in conjuncts(t):
+                if isinstance(c, ast.Compare) and len(c.ops) == 1 and isinstance(c.ops[0], (ast.IsNot, ast.NotEq)) and _is_none(c.comparators[0]):
+                    known.add(src(c.left))
+                elif isinstance(c, ast.Compare) and len(c.ops) == 1 and isinstance(c.ops[0], (ast.IsNot, ast.NotEq)) and _is_none(c.left):
+                    known.add(src(c.comparators[0]))
+                elif isinstance(c, (ast.Name, ast.Subscript, ast.Attribute)):
+                    known.add(src(c))
+        return known
+
+    def _bind(self, target, it, env):
+        """Bind a loop / comprehension target to one element of a sequence with abstract value `it`."""
+        if it is None or it == ("e",):
+            return it == ("e",)
+        kind, st = it
+        if isinstance(target, ast.Name):
+            env[target.id] = st if kind == "s" else ("tuple", st)
+            return True
+        if isinstance(target, (ast.Tuple, ast.List)) and kind == "t" and all(isinstance(x, ast.Name) for x in target.elts):
+            for x in target.elts:
+                env[x.id] = st
+            return True
+        return False
+
+    def _element(self, elt, env, known):
+        if isinstance(elt, ast.Tuple):
+            sts = [self.scalar(x, env, known) for x in elt.elts]
+            return None if any(x is None for x in sts) else ("t", "maynull" if "maynull" in sts else "nonnull")
+        if isinstance(elt, ast.Name) and isinstance(env.get(elt.id), tuple):
+            return ("t", env[elt.id][1])
+        st = self.scalar(elt, env, known)
+        return None if st is None else ("s", st)
+
+    def expr(self, f, e, penv=None):
+        """Abstract value of the elements of sequence expression `e` of function `f` (penv: parameter -> abstract scalar
+        nullness of the argument bound to it, for parameters that are handed on as pad values)."""
+        self.depth += 1
+        try:
+            return self._expr(f, e, penv or {}) if self.depth < 12 else None
+        finally:
+            self.depth -= 1
+
+    def _expr(self, f, e, penv):
+        ctx = self.ctx
+        if isinstance(e, ast.Name) and e.id not in params(f.node):
+            filled = self._filled_local(f, e.id, penv)
+            if filled is not NotImplemented:
+                return filled
+        e = inline(f.node, e)
+        if isinstance(e, (ast.List, ast.Tuple, ast.Set)):
+            if not e.elts:
+                return ("e",)
+            out = ("e",)
+            for x in e.elts:
+                out = _en_join(out, self._element(x, {}, set()))
+            return out
+        if isinstance(e, (ast.ListComp, ast.GeneratorExp, ast.SetComp)) and len(e.generators) == 1:
+            gen = e.generators[0]
+            env: dict = {}
+            it = self.expr(f, gen.iter, penv)
+            if it == ("e",):
+                return ("e",)
+            if not self._bind(gen.target, it, env):
+                return None
+            return self._element(e.elt, env, self._filters(gen.ifs))
+        if isinstance(e, ast.Attribute):
+            owner = ctx.rs.expr_type(f, e.value)
+            if owner and ctx.repo.has_func(f"{owner}.{e.attr}"):
+                prop = ctx.repo.func(f"{owner}.{e.attr}")
+                if any(dotted(d) in ("property", "cached_property", "functools.cached_property") for d in prop.node.decorator_list):
+                    return self.func(prop, {})
+            return None
+        if isinstance(e, ast.Call):
+            name = dotted(e.func)
+            if name in _SAME_ELEMENTS and len(e.args) == 1 and not e.keywords:
+                return self.expr(f, e.args[0], penv)  # the same elements (a dict made by fromkeys is iterated by its keys)
+            if name in _SAME_ELEMENTS and not e.args and not e.keywords:
+                return ("e",)
+            if isinstance(e.func, ast.Attribute) and e.func.attr in _STR_LISTS:
+                return ("s", "nonnull")  # pieces of a text: str / bytes objects
+            if name in ("itertools.zip_longest", "zip_longest"):
+                fill = kwarg(e, "fillvalue")
+                st = "maynull" if fill is None else self.scalar(fill, penv, set())  # no fillvalue: the pad value is None
+                if st == "maynull":
+                    return ("t", "maynull")  # shorter inputs are padded with the fill value: None reaches the tuples
+                return None  # (the inputs - often a starred list of iterators - are not followed)
+            if name == "zip" and e.args and not e.keywords:
+                out = ("e",)
+                for a in e.args:
+                    v = self.expr(f, a, penv)
+                    out = _en_join(out, None if v is None else ("t", v[1]) if v != ("e",) else v)
+                return out
+            cal = ctx.rs.resolve_call(f, e)
+            if cal.kind == "func" and cal.func is not None:
+                bound = bind_args(e, cal.func.node, skip_self=isinstance(e.func, ast.Attribute) and cal.func.cls is not None)
+                inner = {}
+                for pname, arg in bound.items():
+                    if arg is not None:
+                        st = self.scalar(arg, penv, set())
+                        if st is not None:
+                            inner[pname] = st
+                return self.func(cal.func, inner)
+        return None
+
+    def func(self, fn, penv):
+        """Join over the values the function returns."""
+        rets = [r for r in statements(fn.node) if isinstance(r, ast.Return)]
+        if not rets or any(isinstance(n2, (ast.Yield, ast.YieldFrom)) for n2 in body_walk(fn.node)):
+            return None
+        out = ("e",)
+        for r in rets:
+            if r.value is None:
+                return None
+            out = _en_join(out, self.expr(fn, r.value, penv))
+        return out
+
+    def _filled_local(self, f, name, penv):
+        """A local that starts as an empty container and is only ever grown by append / add / insert / `d[k] = ..` /
+        setdefault (elements: the appended expression / the key) or extend / `+=` (the elements of the argument): the join
+        over what is put in.  The appended expression is judged where it stands: loop targets it is bound by (elements of
+        the sequence the loop runs over) and the conditions that dominate the statement.  NotImplemented: not such a local."""
+        defs = assignments_to(f.node, name)
+        plain = [(st, v) for st, v in defs if v is not None and isinstance(st, (ast.Assign, ast.AnnAssign))]
+        if len(plain) != 1:
+            return NotImplemented
+        v0 = plain[0][1]
+        empty = (isinstance(v0, (ast.List, ast.Dict, ast.Set, ast.Tuple)) and not (getattr(v0, "elts", None) or getattr(v0, "keys", None))) or \
+            (isinstance(v0, ast.Call) and dotted(v0.func) in ("list", "dict", "set", "collections.OrderedDict", "OrderedDict") and not v0.args and not v0.keywords)
+        if not empty:
+            return NotImplemented
+        fv = FuncView.of(f.node)
+        puts, spreads, other = [], [], len(defs) - 1
+        for n2 in body_walk(f.node):
+            if isinstance(n2, ast.Call) and isinstance(n2.func, ast.Attribute) and isinstance(n2.func.value, ast.Name) and n2.func.value.id == name:
+                if n2.func.attr in ("append", "add") and len(n2.args) == 1:
+                    puts.append((n2, n2.args[0]))
+                elif n2.func.attr in ("insert", "setdefault") and n2.args:
+                    puts.append((n2, n2.args[1] if n2.func.attr == "insert" and len(n2.args) > 1 else n2.args[0]))
+                elif n2.func.attr == "extend" and len(n2.args) == 1:
+                    spreads.append(n2.args[0])
+                elif n2.func.attr in _MUTATORS:
+                    other += 1
+            elif isinstance(n2, ast.Subscript) and isinstance(n2.ctx, ast.Store) and isinstance(n2.value, ast.Name) and n2.value.id == name:
+                puts.append((n2, n2.slice))
+            elif isinstance(n2, ast.AugAssign) and isinstance(n2.target, ast.Name) and n2.target.id == name:
+                spreads.append(n2.value)
+        if not puts and not spreads and not other:
+            return NotImplemented  # never grown: the plain definition is what it is
+        if other > 0:
+            return None
+        out = ("e",)
+        for node, elt in puts:
+            env: dict = {}
+            for anc in fv.ancestors(node):
+                if isinstance(anc, ast.For):
+                    it = self.expr(f, anc.iter, penv)
+                    if it is None:
+                        # the loop target is not understood: only matters when the element uses it
+                        continue
+                    self._bind(anc.target, it, env)
+            known = set()
+            for _t, pol, test in dominating_conditions(self.ctx, f, node):
+                if pol:
+                    known |= self._filters([test])
+            out = _en_join(out, self._element(elt, env, known))
+        for x in spreads:
+            out = _en_join(out, self.expr(f, x, penv))
+        return out
+
+
+def _is_none(e) -> bool:
+    return isinstance(e, ast.Constant) and e.value is None
+
+
+def _joined_options(ctx, f):
+    """The builder calls of the generator whose value is one text made by joining a sequence: (call, primitive, statement
+    name, the join call, the sequence expression, the value argument as written)."""
+    out = []
+    for c in fn_calls(f.node):
+        if not isinstance(c.func, ast.Attribute):
+            continue
+        cls = _block_class(ctx, f, c.func.value)
+        prim = _primitive_of(ctx, cls, c.func.attr) if cls is not None else None
+        if prim != "set_option":
+            continue
+        written = _call_arg(c, 1, "value")
+        if written is None:
+            continue
+        val = inline(f.node, written)
+        if isinstance(val, ast.Call) and isinstance(val.func, ast.Attribute) and val.func.attr == "join" and isinstance(_c(val.func.value), str) and len(val.args) == 1 and not val.keywords:
+            names = _const_names(f, _call_arg(c, 0, "option"))
+            out.append((c, cls, names[0] if names and len(names) == 1 else src(_call_arg(c, 0, "option") or c), val, val.args[0], written))
+    return out
+
+
+def _r10_joined(ctx):
+    """R10 c / d.  An option whose value is `<separator>.join(<sequence>)`: c. every element of the sequence is a text -
+    str.join raises TypeError for a None element (generation never fails); element nullness is followed from the
+    sequence expression into the package (properties of the configuration class, helpers, the pad value of zip_longest)
+    - and d. the option is only stated when the sequence has elements: the join of no elements is the empty text and a
+    `set <name> "";` statement states an option the configuration does not have (blocks / options with no content are
+    omitted) - the call must be dominated by a non-emptiness condition on the sequence, or on the joined text (a
+    non-empty join has at least one element)."""
+    f = ctx.repo.func("c2profile.C2Profile.from_beacon_config")
+    found = _joined_options(ctx, f)
+    if not found:
+        ctx.undecided("R10", "ABS", f, "options joined from a sequence", "no set_option call whose value is `<constant>.join(<sequence>)` was located in from_beacon_config: the URI list is rendered by other means")
+        return
+    en = _ElemNull(ctx)
+    for call, cls, name, join, seq, written in found:
+        text = f"{cls}.set_option({name!r}) joined from {src(seq)}"
+        try:
+            val = en.expr(f, seq)
+        except RecursionError:
+            val = None
+        if val is None or val == ("e",):
+            ctx.undecided("R10", "ABS", f, text + ": elements are text", f"the element nullness of `{src(seq)}` could not be followed to its source" if val is None else f"`{src(seq)}` is only ever empty as far as the rule can see")
+        elif val[0] == "s" and val[1] == "nonnull":
+            ctx.ob("R10", "ABS", f, text + ": elements are text", True, f"no None reaches the elements of `{src(seq)}` (followed into the package: pad values of the pairing are filtered out before the elements are collected), so the join does not raise", join)
+        else:
+            ctx.ob("R10", "ABS", f, text + ": elements are text", False,
+                   f"an element of `{src(seq)}` can be None" + (" (the elements are tuples)" if val[0] == "t" else "") + ": the pairing helper pads an odd number of fields with None (zip_longest fill value) "
+                   "and no filter removes it before the join - `str.join` raises TypeError: generation fails for a configuration whose domain list carries no URI", join)
+        subj = {src(seq)}
+        if isinstance(written, ast.Name):
+            subj.add(src(written))  # the joined text held in a local: non-empty text => non-empty sequence
+        keep = {n2.id for n2 in ast.walk(seq) if isinstance(n2, ast.Name)} | {n2.id for n2 in ast.walk(written) if isinstance(n2, ast.Name)}
+        guarded = False
+        for _t, pol, node in dominating_conditions(ctx, f, call):
+            for test in _test_forms(f, node, keep):
+                for sj in subj:
+                    pp = _nonempty_polarity(test, sj, "")
+                    if pp is not None and pp == pol:
+                        guarded = True
+        ctx.ob("R10", "DOM", f, text + ": only when non-empty", guarded,
+               "the statement is dominated by a non-emptiness test of the joined sequence: a configuration without such entries states no such option" if guarded else
+               "the option is set whether or not the sequence has elements: for a configuration without entries (a domain list without URIs) the profile states an empty option the configuration does not have", call)
+
+
 def r10(ctx, g: Grammar):
     """Content-less case.  For every sequence-valued setting the case "the sequence has no entries" (emptiness case analysis
     of the value; everything else about the configuration stays symbolic) is taken through from_beacon_config: generation
@@ -3743,6 +4286,7 @@ def r10(ctx, g: Grammar):
         else:
             ctx.ob("R10", "EXIT", f, text, True, "generation does not raise and every block that reaches the returned profile has content (no child-less block, no data transform without statements)")
     ctx.rep.count("sequence_settings", n, floor=5)
+    _r10_joined(ctx)
 
 
 # ---------------------------------------------------------------------------- R13
